@@ -203,7 +203,8 @@ def run(ctx):
     if rt:
         # the advanced path is handed the account
         for b, t in cfg.find_calls(rt, ADV):
-            pn = [p[0] for n, p, a in rt.vars if n == "parent_key_id" and a > 0]
+            pkp = c.param(rt, "parent_key_id", "Identifier")
+            pn = [pkp] if pkp is not None else []
             held = len(t["a"]) >= 3 and bool(pn) and ("arg", pn[0]) in vf.origins(rt, t["a"][2])
             run.instance(R3, {"fn": "retrieve_txs", "obligation": "advanced path receives the account argument"}, held=held)
             if not held:
